@@ -77,7 +77,7 @@ fn exec<D: Doc>(p: &PrepDoc<D>, residue: usize) -> Result<(u64, &'static str, us
 }
 
 pub fn n_units(tier: Tier) -> u64 {
-    n_docs() * values_per_doc(tier, 40, 4000)
+    n_docs() * values_per_doc(tier, 40, 40000)
 }
 
 struct RunUnit<'a> {
